@@ -23,6 +23,7 @@ type c15PJScen struct {
 	SendJoin   string `json:"send_join"`  // ok | err
 	Remote     string `json:"remote"`     // none | good | garbage | leave | other_room | other_state_key | topic
 	Auth       string `json:"auth"`       // good | no_create | create_unknown_version | create_bad_content | create_state_key | create_no_version | empty | unparsable_create | decoy_then_good | unknown_then_good
+	Template    string `json:"template"`     // "" | content_null | prev_empty_pair | prev_number_pair | prev_empty_string | auth_empty_pair | prev_mixed
 	OddTemplate bool  `json:"odd_template"` // make_join template of another type / room / user / membership
 	StateFault string `json:"state_fault"` // none | bad_sig | unauthorised_event | invite_only | missing_auth_event
 }
@@ -184,6 +185,21 @@ func c15PerformJoin(args [][]byte) ([][]byte, []byte) {
 		mk.proto.Content = spec.RawJSON(`{"membership":"leave","displayname":"kept"}`)
 	}
 
+	switch s.Template {
+	case "content_null":
+		mk.proto.Content = spec.RawJSON(`null`)
+	case "prev_empty_pair":
+		mk.proto.PrevEvents = []interface{}{[]interface{}{}}
+	case "prev_number_pair":
+		mk.proto.PrevEvents = []interface{}{[]interface{}{float64(5)}}
+	case "prev_empty_string":
+		mk.proto.PrevEvents = []interface{}{""}
+	case "auth_empty_pair":
+		mk.proto.AuthEvents = []interface{}{[]interface{}{}, []interface{}{create.EventID(), map[string]interface{}{"sha256": "abc"}}}
+	case "prev_mixed":
+		mk.proto.PrevEvents = []interface{}{[]interface{}{float64(5)}, "", []interface{}{}, []interface{}{room.last, map[string]interface{}{"sha256": "abc"}}}
+	}
+
 	// send_join answer
 	authList := []gmsl.PDU{create, cmember, pl, jr}
 	var authJSON gmsl.EventJSONs
@@ -244,6 +260,12 @@ func c15PerformJoin(args [][]byte) ([][]byte, []byte) {
 	switch s.Remote {
 	case "good":
 		mkRemote(func(p *gmsl.ProtoEvent) {})
+	case "unauthorised_join":
+		// a well-formed join of the user in the room that its own auth events do not allow
+		mkRemote(func(p *gmsl.ProtoEvent) { p.AuthEvents = []string{} })
+	case "join_by_banned_state":
+		// a well-formed join whose auth events lack the join rules and power levels
+		mkRemote(func(p *gmsl.ProtoEvent) { p.AuthEvents = []string{cmember.EventID()} })
 	case "leave":
 		mkRemote(func(p *gmsl.ProtoEvent) { p.Content = spec.RawJSON(`{"membership":"leave"}`) })
 	case "other_room":
@@ -283,13 +305,13 @@ func c15PerformJoin(args [][]byte) ([][]byte, []byte) {
 	effVer := gmsl.RoomVersion(s.RespVer)
 	if effVer == "" {
 		effVer = gmsl.RoomVersionV1
-		if s.AuthShape == "strings" {
+		if c15FirstIsString(mk.proto.AuthEvents) {
 			effVer = gmsl.RoomVersionV4
 		}
 	}
 	_, verErr := gmsl.GetRoomVersion(effVer)
 	cfg := c15Obj{"user_nil": s.UserNil, "room_nil": s.RoomNil, "keyring_nil": s.KeyRingNil, "make_join_ok": s.MakeJoin != "err",
-		"resp_version": s.RespVer, "auth_first_is_string": s.AuthShape == "strings", "room": c15ReqRoom, "user": user,
+		"resp_version": s.RespVer, "auth_first_is_string": c15FirstIsString(mk.proto.AuthEvents), "room": c15ReqRoom, "user": user,
 		"origin": "local", "server": "remote",
 		"sender_id": c15Val(user), "mapping_sign_ok": true, "send_join_ok": s.SendJoin != "err", "store_ok": true}
 	// Build succeeds? ask the same builder
@@ -337,28 +359,31 @@ func c15PerformJoin(args [][]byte) ([][]byte, []byte) {
 		}
 	}
 	cfg["auth_events"] = auths
-	// verdict of the federation-response checks (property C14) on the very response
-	checkOK := false
-	if verErr == nil {
-		func() {
-			defer func() { _ = recover() }()
-			joinEv := fc.sent
-			if joinEv == nil {
-				joinEv = own
+	// verdicts of the federation-response checks (property C14) on the very response, for each of
+	// the two candidate join events, independently of which one PerformJoin handed back
+	checkWith := func(joinEv gmsl.PDU) (ok bool) {
+		if verErr != nil || joinEv == nil {
+			return false
+		}
+		defer func() {
+			if recover() != nil {
+				ok = false
 			}
-			if res != nil {
-				joinEv = res.JoinEvent
-			} else if remoteEv != nil && s.Remote == "good" {
-				joinEv = remoteEv
-			}
-			if joinEv == nil {
-				return
-			}
-			_, cerr := gmsl.CheckSendJoinResponse(context.Background(), effVer, gmsl.StateResponse(sj), keyRing, joinEv, provider, uq)
-			checkOK = cerr == nil
 		}()
+		_, cerr := gmsl.CheckSendJoinResponse(context.Background(), effVer, gmsl.StateResponse(sj), keyRing, joinEv, provider, uq)
+		return cerr == nil
 	}
-	cfg["check_ok"] = checkOK
+	ownEv := fc.sent
+	if ownEv == nil {
+		ownEv = own
+	}
+	cfg["check_own"] = checkWith(ownEv)
+	cfg["check_remote"] = false
+	if verErr == nil && len(sj.event) > 0 {
+		if ev, err := gmsl.MustGetRoomVersion(effVer).NewEventFromUntrustedJSON(sj.event); err == nil {
+			cfg["check_remote"] = checkWith(ev)
+		}
+	}
 
 	var out string
 	if ferr != nil {
@@ -375,6 +400,16 @@ func c15PerformJoin(args [][]byte) ([][]byte, []byte) {
 		}
 	}
 	return [][]byte{args[0], c15JSON(cfg)}, []byte(out + "\n" + log.String())
+}
+
+// the template's auth_events is a non-empty list whose first entry is a string
+func c15FirstIsString(v interface{}) bool {
+	l, ok := v.([]interface{})
+	if !ok || len(l) == 0 {
+		return false
+	}
+	_, ok = l[0].(string)
+	return ok
 }
 
 func c15Bit(b bool) string {
@@ -410,6 +445,14 @@ func genC15Perform(c *Ctx) {
 		{"claimed version differs from the room's", func(s *c15PJScen) { s.RespVer = "9" }},
 		{"send_join fails", func(s *c15PJScen) { s.SendJoin = "err" }},
 		{"odd template", func(s *c15PJScen) { s.OddTemplate = true }},
+		{"template content null", func(s *c15PJScen) { s.Template = "content_null" }},
+		{"template prev_events [[]]", func(s *c15PJScen) { s.Template = "prev_empty_pair" }},
+		{"template prev_events [[5]]", func(s *c15PJScen) { s.Template = "prev_number_pair" }},
+		{"template prev_events [\"\"]", func(s *c15PJScen) { s.Template = "prev_empty_string" }},
+		{"template auth_events [[], ref]", func(s *c15PJScen) { s.Template = "auth_empty_pair" }},
+		{"template prev_events mixed", func(s *c15PJScen) { s.Template = "prev_mixed" }},
+		{"remote event a join its auth events do not allow", func(s *c15PJScen) { s.Remote = "unauthorised_join" }},
+		{"remote event a join without rules in its auth events", func(s *c15PJScen) { s.Remote = "join_by_banned_state" }},
 		{"no remote event", func(s *c15PJScen) { s.Remote = "none" }},
 		{"remote event garbage", func(s *c15PJScen) { s.Remote = "garbage" }},
 		{"remote event a leave", func(s *c15PJScen) { s.Remote = "leave" }},
